@@ -1419,6 +1419,8 @@ def liveness_stage(chk, prefix, variants, n_quick, n_thorough):
         every schedule, judges of the family `prefix` only (the C16 signatures of the same schedules belong to ./check C16). """
     import time as _t
     t0 = _t.perf_counter()
+    if os.environ.get('VERIF_SKIP_FREE') == '1':      # sweeps of the other stages only (never set by a registered command)
+        chk.notes.append('free-running stage skipped (VERIF_SKIP_FREE=1)'); return
     n = n_quick if chk.tier == 'quick' else n_thorough
     agg = {'schedules': 0, 'variants': [v for v in variants], 'corpus': 0}
     # corpus first: the schedules of past failures (known findings and repaired defects)
